@@ -208,15 +208,18 @@ func (c *FnCtx) setupOG(fr *Frame, st *State) {
 	if ct == nil {
 		return
 	}
-	name, ok := ct.Attrs["concurrent"]
-	if !ok {
+	name, conc := ct.Attrs["concurrent"]
+	if !conc && len(ct.Locals) == 0 && len(ct.Afters) == 0 {
 		return
 	}
 	pkg := c.eng.typesPkg(ct.Pkg)
-	pd := c.eng.pred(pkg, strings.TrimSpace(name))
-	if pd == nil {
-		c.eng.errorf("%s: concurrent: unknown invariant predicate %q", ct.Name, name)
-		return
+	var pd *PredDef
+	if conc {
+		pd = c.eng.pred(pkg, strings.TrimSpace(name))
+		if pd == nil {
+			c.eng.errorf("%s: concurrent: unknown invariant predicate %q", ct.Name, name)
+			return
+		}
 	}
 	og := &ogSpec{inv: pd, locals: map[string]*ogLocal{}, afters: map[string][]ogAssign{}, nonblk: map[string]bool{}, usedKey: map[string]bool{}}
 	og.keys, og.caseKey = c.buildOpKeys(fr.fn)
@@ -233,12 +236,23 @@ func (c *FnCtx) setupOG(fr *Frame, st *State) {
 		og.nonblk[k] = true
 	}
 	c.og = og
+	if !conc {
+		// sequential function with ghost locals / after-hooks only
+		c.initOGLocals(fr, st, og)
+		c.checkOGKeys(ct, og)
+		return
+	}
 	// make the shared channel families known up front so that every interference point
 	// havocs them explicitly (and records the monotonicity of `closed`)
 	c.heapGet(st, "chan$closed", SArr(SInt, SBool))
 	c.heapGet(st, "chan$len", SArr(SInt, SInt))
 	c.heapGet(st, "chan$sent", SArr(SInt, SInt))
 	c.heapGet(st, "chan$recvd", SArr(SInt, SInt))
+	c.initOGLocals(fr, st, og)
+	c.checkOGKeys(ct, og)
+}
+
+func (c *FnCtx) initOGLocals(fr *Frame, st *State, og *ogSpec) {
 	// initialise thread-local ghosts
 	env := c.specEnv(fr, st)
 	for _, l := range og.locals {
@@ -256,6 +270,10 @@ func (c *FnCtx) setupOG(fr *Frame, st *State) {
 		}
 		st.cells[l.key] = v
 	}
+}
+
+func (c *FnCtx) checkOGKeys(ct *FuncContract, og *ogSpec) {
+	fr := &Frame{fn: c.fn, contract: ct}
 	// every key named in the contract must exist
 	valid := map[string]bool{}
 	for _, k := range og.keys {
@@ -312,7 +330,7 @@ func sharedHeap(name string) bool {
 
 // ogBefore: interference point before an atomic action.
 func (c *FnCtx) ogBefore(fr *Frame, st *State, key string) {
-	if c.og == nil || fr.depth != 0 || c.inSpec > 0 {
+	if c.og == nil || c.og.inv == nil || fr.depth != 0 || c.inSpec > 0 {
 		return
 	}
 	// the thread's stable facts must hold here
@@ -429,7 +447,7 @@ func (c *FnCtx) ogApplyAfters(fr *Frame, st *State, key string, g Term, results 
 }
 
 func (c *FnCtx) ogGuarantee(fr *Frame, st *State, key string) {
-	if c.og == nil || fr.depth != 0 || c.inSpec > 0 {
+	if c.og == nil || c.og.inv == nil || fr.depth != 0 || c.inSpec > 0 {
 		return
 	}
 	g := c.ogInv(fr, st)
@@ -448,7 +466,7 @@ func (c *FnCtx) ogAfter(fr *Frame, st *State, key string, results map[string]SV)
 // nonblock: the operation is claimed never to block: enabledness must follow from the
 // invariant and the thread's facts.
 func (c *FnCtx) nonblock(fr *Frame, st *State, key string, enabled Term) {
-	if c.og == nil || fr.depth != 0 || key == "" || !c.og.nonblk[key] {
+	if c.og == nil || c.og.inv == nil || fr.depth != 0 || key == "" || !c.og.nonblk[key] {
 		return
 	}
 	o := c.addObl("nonblock", key, nil, st, enabled, nil)
